@@ -103,4 +103,11 @@ EDITS = [
     ("C19", SC, "*cumulative += u64::from(delta);", "*cumulative = *cumulative + u64::from(delta);"),
     ("C19", VX, "if timestamp.is_some() {\n                Some(Row {", "if let Some(_) = timestamp {\n                Some(Row {"),
     ("C19", VX, "reconstructed_x: vertex.map(|v| v.x.get::<meter>()),\n                    reconstructed_y: vertex.map(|v| v.y.get::<meter>()),", "reconstructed_y: vertex.map(|v| v.y.get::<meter>()),\n                    reconstructed_x: vertex.map(|v| v.x.get::<meter>()),"),
+    # ---- statements inserted or split inside / between the fragments that the wraps are cut by
+    ("C19", AN, "let expected_run_number = files[0].0;\n", "let expected_run_number = files[0].0;\n    let _n_files = files.len();\n"),
+    ("C19", AN, "    files.sort_unstable_by_key(|(_, initial_timestamp, _)| *initial_timestamp);\n", "    let _n_sorted = files.len();\n    files.sort_unstable_by_key(|(_, initial_timestamp, _)| *initial_timestamp);\n"),
+    ("C19", SC, "let delta = current.wrapping_sub(previous.unwrap_or(current));", "let base = previous.unwrap_or(current);\n            let delta = current.wrapping_sub(base);"),
+    ("C19", VX, "let delta = current.wrapping_sub(previous.unwrap_or(current));", "let base = previous.unwrap_or(current);\n            let delta = current.wrapping_sub(base);"),
+    ("C20", CB, "let mut fifo = chronobox_fifo(&mut input);\n", "let mut fifo = chronobox_fifo(&mut input);\n            let _n_entries = fifo.len();\n"),
+    ("C20", CB, "let fifo = fifo.split_off(epoch_0_index);\n", "let fifo = fifo.split_off(epoch_0_index);\n            let _n_kept = fifo.len();\n"),
 ]
